@@ -127,6 +127,22 @@ def laws(ld):
     for r in (1, 2, 3):
         L[f'tile{r}=concat'] = (lambda d, r=r: d.tile(r),
                                 lambda d, r=r: d.concatenate(*([d] * (r - 1))))
+    # tile(r, shuffle=True) is the concatenation of r independently shuffled
+    # copies (docstring of Dataset.tile); both sides draw from the global numpy
+    # state, which is seeded equally before each side is built
+    for r in (2, 3):
+        for gs in (5, 6):
+            def lhs(d, r=r, gs=gs):
+                need(d.indexable and n_of(d) >= 3)
+                np.random.seed(gs)
+                return d.tile(r, shuffle=True)
+
+            def rhs(d, r=r, gs=gs):
+                need(d.indexable and n_of(d) >= 3)
+                np.random.seed(gs)
+                parts = [d.shuffle() for _ in range(r)]
+                return parts[0].concatenate(*parts[1:])
+            L[f'tile-shuffle{r}=concat-of-shuffles-{gs}'] = (lhs, rhs)
     for i, s in enumerate(SL[:3]):
         def lhs(d, s=s):
             need(d.indexable)
